@@ -130,6 +130,8 @@ class Abstractor:
         bodylen = 0
         pending_issue = None  # index in out of an issue event still collecting its cmds (until its ack)
         pending_flush = None  # index in out of a flush event still lacking its size
+        after_trunc = False
+        status_idx = None
         cur_op = None         # ("req", n) / ("ckpt", None) while inside a driver op
         ckpt_wrote = False
         for i, e in enumerate(events):
@@ -163,13 +165,15 @@ class Abstractor:
                 out.append({"e": "sync", "src": i})
                 continue
             if k == "fsync" and e["path"] == walpath:
-                if out and out[-1]["e"] == "status":
-                    out[-1]["synced"] = True      # WriteStatus = seek 0, write, fsync, seek end
+                if status_idx is not None:
+                    out[status_idx]["synced"] = True      # WriteStatus = seek 0, write, fsync, seek end
+                    status_idx = None
                     continue
                 out.append({"e": "walfsync", "src": i})
                 continue
             if k == "trunc" and e["path"] == walpath:
                 out.append({"e": "waltrunc", "size": e["size"], "src": i})
+                after_trunc = True
                 continue
             if k != "write":
                 continue
@@ -202,7 +206,10 @@ class Abstractor:
                     walstate = "idle"
                     continue
                 if len(data) == 11 and data[0] == 2:
-                    out.append({"e": "status", "fs": data[1], "rs": data[2], "off": off, "src": i})
+                    kind = "rotstatus" if after_trunc else "status"
+                    after_trunc = False
+                    out.append({"e": kind, "fs": data[1], "rs": data[2], "off": off, "src": i})
+                    status_idx = len(out) - 1
                     continue
                 if len(data) == 11 and data[0] == 1:
                     tid = struct.unpack_from("<q", data, 1)[0]
